@@ -74,6 +74,41 @@ func toFloorForm(v float64) (floorForm, bool) {
 	return ff, true
 }
 
+// toFloorFormCoarse is toFloorForm for arguments with MORE than 28 fractional bits (a hair away from an
+// integer or from a half: k + 2^-35, 2.5 - 2^-40).  The fraction is replaced by one of at most 28 bits in
+// the same class relative to 0 and 1/2 (zero stays zero, (0, 1/2) stays inside (0, 1/2), 1/2 stays 1/2,
+// (1/2, 1) stays inside (1/2, 1)); floor(v) is kept.  Every contract of C19 whose result is an INTEGER
+// (floor ceil inc dec integer round) reads of the argument only floor(v), its sign and that class, so the
+// verdict of module Builtins on the projected argument is the verdict on v.  Not used for decimal().
+func toFloorFormCoarse(v float64) (floorForm, bool) {
+	if ff, ok := toFloorForm(v); ok {
+		return ff, true
+	}
+	if math.IsNaN(v) || math.IsInf(v, 0) {
+		return floorForm{}, false
+	}
+	r := new(big.Rat).SetFloat64(v)
+	j := new(big.Int).Div(r.Num(), r.Denom())
+	if new(big.Int).Abs(j).Cmp(big2p52) > 0 {
+		return floorForm{}, false
+	}
+	frac := new(big.Rat).Sub(r, new(big.Rat).SetInt(j)) // in (0,1), more than 28 bits: neither 0 nor 1/2
+	scaled := new(big.Rat).Mul(frac, new(big.Rat).SetInt(new(big.Int).Lsh(big.NewInt(1), 28)))
+	f := new(big.Int).Div(scaled.Num(), scaled.Denom()).Int64() // floor(frac * 2^28), 0 <= f < 2^28
+	if f == 0 {
+		f = 1
+	}
+	if f == 1<<27 {
+		f++ // frac > 1/2 (it is not 1/2): stay above
+	}
+	k := 28
+	for f%2 == 0 {
+		f, k = f/2, k-1
+	}
+	hi, lo := new(big.Int).DivMod(j, bigLimb, new(big.Int))
+	return floorForm{Hi: hi.Int64(), Lo: lo.Int64(), F: f, K: k}, true
+}
+
 // decForm: R = (hi*2^26+lo) + g/10^p, the decimal a double denotes (its shortest
 // representation that reads back as the same double).
 type decForm struct {
@@ -344,6 +379,9 @@ func runBuiltinCase(forms map[string]*builtinForm, c *builtinCase, id int) (*bui
 	case "floor", "ceil", "inc", "dec", "integer", "decimal", "round":
 		ev.Ev = "num"
 		x, okx := toFloorForm(c.X)
+		if !okx && c.F != "decimal" {
+			x, okx = toFloorFormCoarse(c.X)
+		}
 		if !okx {
 			return nil, fmt.Errorf("builtins: generated argument %v is outside the window", c.X)
 		}
@@ -570,6 +608,21 @@ func genBuiltinCases(rnd *rand.Rand, n int) []*builtinCase {
 				}
 				for _, f := range numeric {
 					cases = append(cases, &builtinCase{F: f, X: centre + float64(m)/pow2(k)})
+				}
+			}
+		}
+	}
+	// a hair away from an integer and from a half (29 to 50 fractional bits), on both sides, both signs
+	for _, k := range []float64{-1000, -3, -2, -1, 0, 1, 2, 3, 7, 1000} {
+		for _, j := range []int{29, 30, 31, 33, 34, 36, 40, 45, 50} {
+			for _, base := range []float64{k, k + 0.5} {
+				for _, x := range []float64{base + pow2(-j), base - pow2(-j)} {
+					if math.Abs(base) >= pow2(52-j) || x == base {
+						continue
+					}
+					for _, f := range []string{"floor", "ceil", "inc", "dec", "integer", "round"} {
+						cases = append(cases, &builtinCase{F: f, X: x})
+					}
 				}
 			}
 		}
